@@ -162,9 +162,12 @@ def learn_once(cfg, ch):
     orig_fit = SupervisedOPF.fit
     orig_acc = g.opf_accuracy
 
-    def fit(self, X, Y, I=None):
+    def fit(self, *a, **kw):
+        # (positional or keyword use of fit(X_train, Y_train, I_train) by the training loop)
+        X = a[0] if len(a) > 0 else kw["X_train"]
+        Y = a[1] if len(a) > 1 else kw["Y_train"]
         rec.append({"rows": rows(X, Y), "acc": None})
-        return orig_fit(self, X, Y, I)
+        return orig_fit(self, *a, **kw)
 
     script = cfg.get("acc_script")
     n_acc = [0]
@@ -183,10 +186,10 @@ def learn_once(cfg, ch):
     err = None
     orig_predict = SupervisedOPF.predict
 
-    def predict(self, X, *more, **kw):
+    def predict(self, *a, **kw):
         # the accuracy of an iteration is also measured here, independently of whether (and how) the
         # training loop evaluates it: the predictions it asked for against the current validation labels
-        out = orig_predict(self, X, *more, **kw)
+        out = orig_predict(self, *a, **kw)
         try:
             if rec and len(out) == len(Yv):
                 rec[-1]["acc_indep"] = float(orig_acc(Yv.copy(), [int(v) for v in out]))
@@ -565,12 +568,14 @@ def prune_case(prog, res=None):
     rec = []
     orig_fit = SupervisedOPF.fit
 
-    def fit(self, X, Y, I=None):
+    def fit(self, *a, **kw):
+        X = a[0] if len(a) > 0 else kw["X_train"]
+        Y = a[1] if len(a) > 1 else kw["Y_train"]
         prev = None
         if self.subgraph is not None and rec:
             prev = [int(nd.relevant) for nd in self.subgraph.nodes]
         rec.append({"rows": rows(X, Y), "prev_flags": prev})
-        return orig_fit(self, X, Y, I)
+        return orig_fit(self, *a, **kw)
 
     o = SupervisedOPF("euclidean")
     err = None
